@@ -132,3 +132,10 @@ mut('C14', 'lag-spelling-t-dropped', [(EP, "                eqn = eqn.replace('(
 mut('C14', 'initial-condition-in-exogenous-section-misfiled', [(EP, "            if mode == 'endogenous':\n                # Remove initial conditions equations", "            if True:\n                # Remove initial conditions equations")], ['blocks'], deductive_only=False)
 ben('C14', 'rename-code-part', [(EP, "            code_part = equation\n            if pos > -1:\n                code_part = equation[0:pos]\n            if 'exogenous' in code_part.lower() or (len(code_part.strip()) == 0 and 'exogenous' in equation.lower()):\n                mode = 'exogenous'\n                continue\n            # Remove comments (like this one!)\n            equation = code_part.strip()",
     "            code = equation\n            if pos > -1:\n                code = equation[0:pos]\n            if 'exogenous' in code.lower() or (len(code.strip()) == 0 and 'exogenous' in equation.lower()):\n                mode = 'exogenous'\n                continue\n            # Remove comments (like this one!)\n            equation = code.strip()")])
+
+# ---- C03 ---------------------------------------------------------------------------------------------
+mut('C03', 'alias-with-initial-condition-eliminated', [(EP, "            if rhs in self.AllEquations and var not in self.InitialConditions:", "            if rhs in self.AllEquations:")], ['only_a_bare_alias', 'differential'])
+mut('C03', 'rebuild-drops-last-equation', [(EP, "        new_endo = [(x[0], self.AllEquations[x[0]]) for x in self.Endogenous]", "        new_endo = [(x[0], self.AllEquations[x[0]]) for x in self.Endogenous[:-1]]")], ['same_names_in_the_same_order'])
+mut('C03', 'cleanup-strips-minus-too', [(EP, "        if s[0] == '+':\n            s = s[1:]", "        if s[0] in '+-':\n            s = s[1:]")], ['stripped_without_one_leading_plus'])
+mut('C03', 'substring-substitution', [(EP, "self.AllEquations[other] = str(replace_token(self.AllEquations[other], var, rhs).replace(' ', ''))", "self.AllEquations[other] = str(self.AllEquations[other].replace(var, rhs).replace(' ', ''))")], ['differential'], deductive_only=False)
+ben('C03', 'cleanup-startswith', [(EP, "        if s[0] == '+':\n            s = s[1:]", "        if s.startswith('+'):\n            s = s[1:]")])
